@@ -31,6 +31,11 @@ NAMES = ["arithmetic_mean", "squared_average", "quadratic_mean", "root_mean_squa
 AZ = [(1.0, 0.0), (0.0, 1.0), (4 / 5, 3 / 5), (-5 / 13, 12 / 13)]
 
 
+class SmoothedSpectrumNotPositive(Exception):
+    """A Savitzky-Golay smoothed spectrum with a non-positive value: the ratio (its square root for a PSD) is undefined and
+    the library refuses the curve - not a case of the property."""
+
+
 def main():
     run = Run("C01")
     h = import_hvsrpy()
@@ -40,7 +45,13 @@ def main():
     def proc(recs, st):
         with warnings.catch_warnings():
             warnings.simplefilter("ignore")
-            return h.process(copy.deepcopy(recs), st)
+            try:
+                return h.process(copy.deepcopy(recs), st)
+            except ValueError as e:
+                sm = getattr(st, "smoothing", None) or {}
+                if "nan" in str(e) and sm.get("operator") == "savitzky_and_golay":
+                    raise SmoothedSpectrumNotPositive(str(e))
+                raise
 
     def series(spec_bins, L, rng_):
         """real series of length L whose rfft has the given complex values on bins 1..K (0 elsewhere)"""
@@ -192,61 +203,65 @@ def generic(run, h, rng, proc):
                 return h.HvsrDiffuseFieldProcessingSettings(**kw)
         kinds = [("trad", m) for m in NAMES] + [("sa", None), ("rot", None), ("df", None)]
         for kind, method in kinds:
-            label = method or kind
-            rep = dict(kind="generic", method=label, op=op, n=n, dt=dt, width=width, trial=t, seed=run.seed)
-            base = proc([rec], mkst(kind, method)).amplitude
-            base = np.atleast_2d(base)[0]
-            # taper and zero padding factor out: the explicitly tapered and padded window with a rectangular taper and n = None
-            tap = tukey(n, alpha=width)
-            padded = [np.concatenate([xi * tap, np.zeros(32768 - n)]) for xi in x]
-            rec2 = h.SeismicRecording3C(ts(padded[0], dt), ts(padded[1], dt), ts(padded[2], dt))
-            if kind in ("sa", "rot"):
-                # the time-domain paths taper after projecting: same factorisation
-                pass
-            fac = np.atleast_2d(proc([rec2], mkst(kind, method, w=0.0, fft={"n": None})).amplitude)[0]
-            scale = math.sqrt(32768.0 / n) if kind == "df" else 1.0        # a PSD is normalised by the unpadded length; the ratio is not affected
-            if not np.allclose(base, fac, rtol=1e-9):
-                run.violation(f"factorisation:{label}", f"{label} with {op}: process(x, tukey {width}, n=32768) differs from process(pad(taper(x))) "
-                              f"(n={n}, dt={dt}); max rel diff {np.max(np.abs(base-fac)/np.abs(fac)):.2e}", rep)
-            # scaling by powers of two: bit-exact
-            k = int(rng.choice([-3, 2, 5]))
-            f = 2.0 ** k
-            rec_all = h.SeismicRecording3C(ts(x[0] * f, dt), ts(x[1] * f, dt), ts(x[2] * f, dt))
-            rec_h = h.SeismicRecording3C(ts(x[0] * f, dt), ts(x[1] * f, dt), ts(x[2], dt))
-            rec_v = h.SeismicRecording3C(ts(x[0], dt), ts(x[1], dt), ts(x[2] * f, dt))
-            a_all = np.atleast_2d(proc([rec_all], mkst(kind, method)).amplitude)[0]
-            a_h = np.atleast_2d(proc([rec_h], mkst(kind, method)).amplitude)[0]
-            a_v = np.atleast_2d(proc([rec_v], mkst(kind, method)).amplitude)[0]
-            if not np.array_equal(a_all, base):
-                run.violation(f"scale-all:{label}", f"{label} with {op}: multiplying all three components by 2^{k} changes the curve", rep)
-            # "any amplitude scale": ambient noise in m/s is of the order 1e-9 .. 1e-12, raw counts 1e6 .. 1e9; a power of two commutes
-            # with every floating-point operation of the pipeline, so the curve must be bit-identical
-            for kx in (-40, 33):
-                fx = 2.0 ** kx
-                rec_x = h.SeismicRecording3C(ts(x[0] * fx, dt), ts(x[1] * fx, dt), ts(x[2] * fx, dt))
-                a_x = np.atleast_2d(proc([rec_x], mkst(kind, method)).amplitude)[0]
-                if not np.array_equal(a_x, base):
-                    run.violation(f"scale-all:{label}", f"{label} with {op}: multiplying all three components by 2^{kx} (~{fx:.1e}) changes the curve "
-                                  f"(max rel diff {np.max(np.abs(a_x - base) / np.abs(base)):.2e})", rep)
-            if not np.array_equal(a_h, base * f):
-                run.violation(f"scale-horizontals:{label}", f"{label} with {op}: multiplying the horizontals by 2^{k} does not multiply the curve by 2^{k}", rep)
-            if not np.array_equal(a_v, base / f):
-                run.violation(f"scale-vertical:{label}", f"{label} with {op}: multiplying the vertical by 2^{k} does not divide the curve by 2^{k}", rep)
-            # proportional components: flat at the closed-form value
-            A, B, C = 3.0, 1.5, 2.0
-            recp = h.SeismicRecording3C(ts(A * x[2], dt), ts(B * x[2], dt), ts(C * x[2], dt))
-            flat = np.atleast_2d(proc([recp], mkst(kind, method)).amplitude)[0]
-            closed = {"arithmetic_mean": (A + B) / 2, "squared_average": math.sqrt((A * A + B * B) / 2), "quadratic_mean": math.sqrt((A * A + B * B) / 2),
-                      "root_mean_square": math.sqrt((A * A + B * B) / 2), "effective_amplitude_spectrum": math.sqrt((A * A + B * B) / 2),
-                      "geometric_mean": math.sqrt(A * B), "total_horizontal_energy": math.sqrt(A * A + B * B), "vector_summation": math.sqrt(A * A + B * B),
-                      "maximum_horizontal_value": max(A, B), "sa": abs(A * math.cos(math.radians(37.0)) + B * math.sin(math.radians(37.0))),
-                      "df": math.sqrt(A * A + B * B)}.get(label)
-            if closed is None:    # RotD50 over 0/45/90/135: median of |A cos a + B sin a| (numpy percentile of 4 values interpolates)
-                vals = sorted(abs(A * math.cos(math.radians(a)) + B * math.sin(math.radians(a))) for a in (0.0, 45.0, 90.0, 135.0))
-                closed = (vals[1] + vals[2]) / 2
-            if not np.allclose(flat, closed / C, rtol=1e-9):
-                run.violation(f"proportional:{label}", f"{label} with {op}: components {A}s, {B}s, {C}s give {flat.tolist()[:3]}..., closed form {closed / C}", rep)
-            run.case(("gen", t, label))
+            try:
+                label = method or kind
+                rep = dict(kind="generic", method=label, op=op, n=n, dt=dt, width=width, trial=t, seed=run.seed)
+                base = proc([rec], mkst(kind, method)).amplitude
+                base = np.atleast_2d(base)[0]
+                # taper and zero padding factor out: the explicitly tapered and padded window with a rectangular taper and n = None
+                tap = tukey(n, alpha=width)
+                padded = [np.concatenate([xi * tap, np.zeros(32768 - n)]) for xi in x]
+                rec2 = h.SeismicRecording3C(ts(padded[0], dt), ts(padded[1], dt), ts(padded[2], dt))
+                if kind in ("sa", "rot"):
+                    # the time-domain paths taper after projecting: same factorisation
+                    pass
+                fac = np.atleast_2d(proc([rec2], mkst(kind, method, w=0.0, fft={"n": None})).amplitude)[0]
+                scale = math.sqrt(32768.0 / n) if kind == "df" else 1.0        # a PSD is normalised by the unpadded length; the ratio is not affected
+                if not np.allclose(base, fac, rtol=1e-9):
+                    run.violation(f"factorisation:{label}", f"{label} with {op}: process(x, tukey {width}, n=32768) differs from process(pad(taper(x))) "
+                                  f"(n={n}, dt={dt}); max rel diff {np.max(np.abs(base-fac)/np.abs(fac)):.2e}", rep)
+                # scaling by powers of two: bit-exact
+                k = int(rng.choice([-3, 2, 5]))
+                f = 2.0 ** k
+                rec_all = h.SeismicRecording3C(ts(x[0] * f, dt), ts(x[1] * f, dt), ts(x[2] * f, dt))
+                rec_h = h.SeismicRecording3C(ts(x[0] * f, dt), ts(x[1] * f, dt), ts(x[2], dt))
+                rec_v = h.SeismicRecording3C(ts(x[0], dt), ts(x[1], dt), ts(x[2] * f, dt))
+                a_all = np.atleast_2d(proc([rec_all], mkst(kind, method)).amplitude)[0]
+                a_h = np.atleast_2d(proc([rec_h], mkst(kind, method)).amplitude)[0]
+                a_v = np.atleast_2d(proc([rec_v], mkst(kind, method)).amplitude)[0]
+                if not np.array_equal(a_all, base):
+                    run.violation(f"scale-all:{label}", f"{label} with {op}: multiplying all three components by 2^{k} changes the curve", rep)
+                # "any amplitude scale": ambient noise in m/s is of the order 1e-9 .. 1e-12, raw counts 1e6 .. 1e9; a power of two commutes
+                # with every floating-point operation of the pipeline, so the curve must be bit-identical
+                for kx in (-40, 33):
+                    fx = 2.0 ** kx
+                    rec_x = h.SeismicRecording3C(ts(x[0] * fx, dt), ts(x[1] * fx, dt), ts(x[2] * fx, dt))
+                    a_x = np.atleast_2d(proc([rec_x], mkst(kind, method)).amplitude)[0]
+                    if not np.array_equal(a_x, base):
+                        run.violation(f"scale-all:{label}", f"{label} with {op}: multiplying all three components by 2^{kx} (~{fx:.1e}) changes the curve "
+                                      f"(max rel diff {np.max(np.abs(a_x - base) / np.abs(base)):.2e})", rep)
+                if not np.array_equal(a_h, base * f):
+                    run.violation(f"scale-horizontals:{label}", f"{label} with {op}: multiplying the horizontals by 2^{k} does not multiply the curve by 2^{k}", rep)
+                if not np.array_equal(a_v, base / f):
+                    run.violation(f"scale-vertical:{label}", f"{label} with {op}: multiplying the vertical by 2^{k} does not divide the curve by 2^{k}", rep)
+                # proportional components: flat at the closed-form value
+                A, B, C = 3.0, 1.5, 2.0
+                recp = h.SeismicRecording3C(ts(A * x[2], dt), ts(B * x[2], dt), ts(C * x[2], dt))
+                flat = np.atleast_2d(proc([recp], mkst(kind, method)).amplitude)[0]
+                closed = {"arithmetic_mean": (A + B) / 2, "squared_average": math.sqrt((A * A + B * B) / 2), "quadratic_mean": math.sqrt((A * A + B * B) / 2),
+                          "root_mean_square": math.sqrt((A * A + B * B) / 2), "effective_amplitude_spectrum": math.sqrt((A * A + B * B) / 2),
+                          "geometric_mean": math.sqrt(A * B), "total_horizontal_energy": math.sqrt(A * A + B * B), "vector_summation": math.sqrt(A * A + B * B),
+                          "maximum_horizontal_value": max(A, B), "sa": abs(A * math.cos(math.radians(37.0)) + B * math.sin(math.radians(37.0))),
+                          "df": math.sqrt(A * A + B * B)}.get(label)
+                if closed is None:    # RotD50 over 0/45/90/135: median of |A cos a + B sin a| (numpy percentile of 4 values interpolates)
+                    vals = sorted(abs(A * math.cos(math.radians(a)) + B * math.sin(math.radians(a))) for a in (0.0, 45.0, 90.0, 135.0))
+                    closed = (vals[1] + vals[2]) / 2
+                if not np.allclose(flat, closed / C, rtol=1e-9):
+                    run.violation(f"proportional:{label}", f"{label} with {op}: components {A}s, {B}s, {C}s give {flat.tolist()[:3]}..., closed form {closed / C}", rep)
+                run.case(("gen", t, label))
+            except SmoothedSpectrumNotPositive:
+                run.inconclusive += 1      # Savitzky-Golay weights are not all positive: the smoothed spectrum left the domain of the ratio
+                continue
         # ---- FFT length: zero padding, never truncation (Session.tla: NeverTruncates) -------------------------
         # (a) a user-supplied n shorter than the window, (b) a settings object that was used on a shorter window
         #     before: the curve must equal the one obtained with fresh default settings (n = next power of two >= window)
@@ -254,36 +269,40 @@ def generic(run, h, rng, proc):
         longx = [np.cumsum(rng.normal(size=nlong)) * 0.1 + rng.normal(size=nlong) for _ in range(3)]
         long_rec = h.SeismicRecording3C(ts(longx[0], dt), ts(longx[1], dt), ts(longx[2], dt))
         for kind, method in (("trad", NAMES[t % len(NAMES)]), ("sa", None), ("df", None)):
-            label = method or kind
-            fresh_long = np.atleast_2d(proc([long_rec], mkst(kind, method)).amplitude)[0]
-            fresh_short = np.atleast_2d(proc([rec], mkst(kind, method)).amplitude)[0]
             try:
-                small = np.atleast_2d(proc([rec], mkst(kind, method, fft={"n": 256})).amplitude)[0]
-            except Exception as e:
-                run.violation(f"fft-length:user-n-shorter-than-window:{label}", f"{label}: fft_settings n=256 on a {n}-sample window raised "
-                              f"{type(e).__name__}: {e} (the window must be zero padded to the next power of two)", dict(kind="generic", method=label, n=n, trial=t))
-                small = fresh_short
-            if not np.array_equal(small, fresh_short):
-                run.violation(f"fft-length:user-n-shorter-than-window:{label}", f"{label}: fft_settings n=256 on a {n}-sample window changes the curve "
-                              f"(the window must be zero padded, never truncated); max rel diff {np.max(np.abs(small-fresh_short)/fresh_short):.2e}",
-                              dict(kind="generic", method=label, n=n, trial=t))
-            reused = mkst(kind, method)
-            proc([rec], reused)
-            try:
-                second = np.atleast_2d(proc([long_rec], reused).amplitude)[0]
-            except Exception as e:
-                run.violation(f"fft-length:settings-reused-on-longer-window:{label}", f"{label}: reusing a settings object on a longer window raised {type(e).__name__}: {e}",
-                              dict(kind="generic", method=label, n=n, nlong=nlong, trial=t))
-                second = fresh_long
-            if not np.array_equal(second, fresh_long):
-                run.violation(f"fft-length:settings-reused-on-longer-window:{label}", f"{label}: a settings object used on a {n}-sample window and then on a "
-                              f"{nlong}-sample window gives a different curve than fresh settings (stored FFT length {reused.fft_settings.get('n')}); "
-                              f"max rel diff {np.max(np.abs(second-fresh_long)/fresh_long):.2e}", dict(kind="generic", method=label, n=n, nlong=nlong, trial=t))
-            if reused.fft_settings["n"] < nlong:
-                run.violation("ratio:truncated", f"stored FFT length {reused.fft_settings['n']} is shorter than the window ({nlong} samples)", dict(kind="generic", n=nlong))
-            run.case(("fftlen", t, label))
+                label = method or kind
+                fresh_long = np.atleast_2d(proc([long_rec], mkst(kind, method)).amplitude)[0]
+                fresh_short = np.atleast_2d(proc([rec], mkst(kind, method)).amplitude)[0]
+                try:
+                    small = np.atleast_2d(proc([rec], mkst(kind, method, fft={"n": 256})).amplitude)[0]
+                except Exception as e:
+                    run.violation(f"fft-length:user-n-shorter-than-window:{label}", f"{label}: fft_settings n=256 on a {n}-sample window raised "
+                                  f"{type(e).__name__}: {e} (the window must be zero padded to the next power of two)", dict(kind="generic", method=label, n=n, trial=t))
+                    small = fresh_short
+                if not np.array_equal(small, fresh_short):
+                    run.violation(f"fft-length:user-n-shorter-than-window:{label}", f"{label}: fft_settings n=256 on a {n}-sample window changes the curve "
+                                  f"(the window must be zero padded, never truncated); max rel diff {np.max(np.abs(small-fresh_short)/fresh_short):.2e}",
+                                  dict(kind="generic", method=label, n=n, trial=t))
+                reused = mkst(kind, method)
+                proc([rec], reused)
+                try:
+                    second = np.atleast_2d(proc([long_rec], reused).amplitude)[0]
+                except Exception as e:
+                    run.violation(f"fft-length:settings-reused-on-longer-window:{label}", f"{label}: reusing a settings object on a longer window raised {type(e).__name__}: {e}",
+                                  dict(kind="generic", method=label, n=n, nlong=nlong, trial=t))
+                    second = fresh_long
+                if not np.array_equal(second, fresh_long):
+                    run.violation(f"fft-length:settings-reused-on-longer-window:{label}", f"{label}: a settings object used on a {n}-sample window and then on a "
+                                  f"{nlong}-sample window gives a different curve than fresh settings (stored FFT length {reused.fft_settings.get('n')}); "
+                                  f"max rel diff {np.max(np.abs(second-fresh_long)/fresh_long):.2e}", dict(kind="generic", method=label, n=n, nlong=nlong, trial=t))
+                if reused.fft_settings["n"] < nlong:
+                    run.violation("ratio:truncated", f"stored FFT length {reused.fft_settings['n']} is shorter than the window ({nlong} samples)", dict(kind="generic", n=nlong))
+                run.case(("fftlen", t, label))
 
 
+            except SmoothedSpectrumNotPositive:
+                run.inconclusive += 1      # Savitzky-Golay weights are not all positive: the smoothed spectrum left the domain of the ratio
+                continue
 if __name__ == "__main__":
     sys.path.insert(0, __file__.rsplit("/", 1)[0])
     main_wrapper(main)
